@@ -1,6 +1,6 @@
 (* Props/C03.v -- property theorems only.  Each is closed by `exact <lemma>` and followed by Print Assumptions.
    All statements are about the real instance of coq/Model/BSpline.v (bspline_row / bspline_scaled = one row of
-   pygam.utils.b_spline_basis; None = the code raises).  vsum = row sum, scaled_x = (x - min ek)/(max ek - min ek)
+   pygam.utils.b_spline_basis; None = the code raises, which after the repair of S10 only happens for n < k+1).  vsum = row sum, scaled_x = (x - min ek)/(max ek - min ek)
    with the code's replacement of a zero scale by 1.  Examples showing that the hypotheses are satisfiable are in
    Proofs/C03Transfer.v (ex_inside, ex_extrap_left, ex_extrap_right, ex_periodic, ex_edge_knots).               *)
 From Coq Require Import List Reals ZArith QArith Qreals.
@@ -60,27 +60,34 @@ Print Assumptions C03_extrap_linear_continuous.
 (* _partial (stretch goal of DESIGN section 7 not proved): that the slopes g0, g1 equal the one-sided derivatives of the
    interior polynomial pieces at the boundary (B-spline derivative formula).  It is probed numerically by the harness. *)
 
-(* periodic basis: wherever the code returns a row, it has n non-negative entries summing to one (every order, size, x) *)
+(* periodic basis (after the repair of S10, /repo f738620: the wrapped x is clipped to the right edge): for EVERY order,
+   size (n >= k+1) and x the code returns a row; it has n non-negative entries summing to one *)
+Theorem C03_periodic_defined_everywhere_rows_sum_to_one : forall n k xs0, (k < n)%nat ->
+  exists row, bspline_scaled Rfops n k true xs0 = Some row /\
+              length row = n /\ Forall (fun v => 0 <= v) row /\ vsum Rrops row = 1.
+Proof. exact periodic_everywhere. Qed.
+Print Assumptions C03_periodic_defined_everywhere_rows_sum_to_one.
 Theorem C03_periodic_rows_sum_to_one : forall n k xs0 row, bspline_scaled Rfops n k true xs0 = Some row ->
   length row = n /\ Forall (fun v => 0 <= v) row /\ vsum Rrops row = 1.
 Proof. exact periodic_row. Qed.
 Print Assumptions C03_periodic_rows_sum_to_one.
 (* _partial: not proved for the periodic basis: the (cyclic) support-width statement. *)
 
-(* S10: the periodic basis of order >= 1 is undefined (the code raises) exactly on the gap (1, 1+1e-9) of the wrapped
-   axis, so "for every x" is false of the code. *)
-Theorem C03_periodic_defined_everywhere_refuted : exists n k xs0, (1 <= k < n)%nat /\ bspline_scaled Rfops n k true xs0 = None.
-Proof. exact periodic_gap_refuted. Qed.
-Print Assumptions C03_periodic_defined_everywhere_refuted.
-Theorem C03_periodic_undefined_exactly_on_gap : forall n k xs0, (1 <= k < n)%nat ->
-  (bspline_scaled Rfops n k true xs0 = None <-> 1 < fmod Rfops xs0 (1 + / 1000000000)).
-Proof. exact periodic_defined_iff. Qed.
-Print Assumptions C03_periodic_undefined_exactly_on_gap.
-Theorem C03_periodic_gap_witness : bspline_row Rfops 0 1 6 3 true (Q2R (20000000001 # 20000000000)) = None.
-Proof. exact periodic_gap_witness. Qed.
-Print Assumptions C03_periodic_gap_witness.
+(* on the clipped sliver [1, 1+1e-9) of the wrapped axis (the former S10 gap) the row is the row of the right edge;
+   in x: for hi <= x < lo + (1+1e-9)*(hi-lo) the row equals the row at x = hi *)
+Theorem C03_periodic_sliver_is_right_edge : forall ek0 ek1 n k x, ek0 <> ek1 ->
+  Rmax ek0 ek1 <= x < Rmin ek0 ek1 + (1 + / 1000000000) * (Rmax ek0 ek1 - Rmin ek0 ek1) ->
+  bspline_row Rfops ek0 ek1 n k true x = bspline_row Rfops ek0 ek1 n k true (Rmax ek0 ek1).
+Proof. exact bspline_row_sliver. Qed.
+Print Assumptions C03_periodic_sliver_is_right_edge.
+Theorem C03_periodic_former_gap_point :
+  bspline_row Rfops 0 1 6 3 true (Q2R (20000000001 # 20000000000)) = bspline_row Rfops 0 1 6 3 true 1
+  /\ bspline_row Rfops 0 1 6 3 true 1 = Some (map Q2R [1 # 6; 2 # 3; 1 # 6; 0; 0; 0]%Q).
+Proof. exact periodic_former_gap_point. Qed.
+Print Assumptions C03_periodic_former_gap_point.
 
-(* period.  _partial: the exact period of the code is (1+1e-9) * knot range (the code wraps with x % (1+1e-9));
+(* period.  _partial: the exact period of the code is p = (1+1e-9) * knot range (the code wraps with x % (1+1e-9), then
+   clips to the right edge): basis(x + m*p) = basis(x) for every x and integer m, clipped sliver included.
    "period = knot range" holds only up to that relative 1e-9 and is refuted as an exact statement below.  No Lipschitz
    bound |basis(x + range) - basis(x)| <= c * 1e-9 is proved; the harness probes it on the implementation. *)
 Theorem C03_periodic_period_partial : forall ek0 ek1 n k x (m : Z), ek0 <> ek1 ->
